@@ -6,12 +6,13 @@ name=$1; prop=$2; tier=${3:-quick}
 cd /verif
 if ! git -C /repo diff --quiet; then echo "/repo dirty, abort"; exit 3; fi
 if ! git -C /repo apply --3way /verif/seeded/$name/patch.diff 2>/tmp/apply.err; then
-  if ! git -C /repo apply /verif/seeded/$name/patch.diff; then echo "PATCH DOES NOT APPLY"; cat /tmp/apply.err; git -C /repo checkout -- .; exit 3; fi
+  git -C /repo reset -q --hard HEAD
+  if ! git -C /repo apply /verif/seeded/$name/patch.diff; then echo "PATCH DOES NOT APPLY"; cat /tmp/apply.err; git -C /repo reset -q --hard HEAD; exit 3; fi
 fi
 git -C /repo reset -q
 ./check $prop $tier > /tmp/try_seed.$name.$prop.out 2>&1
 rc=$?
-git -C /repo checkout -- . ; git -C /repo clean -fdq
+git -C /repo reset -q --hard HEAD ; git -C /repo clean -fdq
 echo "seed=$name property=$prop tier=$tier exit=$rc"
 grep -E "^(violation|VIOLATION|INCONCLUSIVE|PASS|C[0-9]+ )" /tmp/try_seed.$name.$prop.out | head -6 | cut -c1-300
 exit $rc
